@@ -1783,3 +1783,100 @@ Proof.
   split; [apply perm_check_sound|]. intros H. unfold perm_check.
   rewrite (zsort_perm_eq _ _ H). apply zlist_eqb_refl.
 Qed.
+
+(* --- filtering commutes with the stable sort: select (no limit) of a sorted set = sort of the
+   selected set --- *)
+Lemma filter_comm {A} (f g : A -> bool) l : filter f (filter g l) = filter g (filter f l).
+Proof.
+  induction l as [|x t IH]; simpl; [reflexivity|].
+  destruct (f x) eqn:Ef, (g x) eqn:Eg; simpl; rewrite ?Ef, ?Eg, IH; reflexivity.
+Qed.
+
+Lemma StronglySorted_filter {A} (R : A -> A -> Prop) (f : A -> bool) l :
+  StronglySorted R l -> StronglySorted R (filter f l).
+Proof.
+  induction l as [|x t IH]; intros H; simpl; [constructor|].
+  inversion H as [|? ? Ht Hx]; subst. destruct (f x); [|apply IH; exact Ht].
+  constructor; [apply IH; exact Ht|].
+  rewrite Forall_forall in *. intros y Hy. apply filter_In in Hy. apply Hx. tauto.
+Qed.
+
+Lemma filter_isort_comm {A} (le : Z -> Z -> bool) (kf : A -> Z) (f : A -> bool) l :
+  (forall a b, le a b = true \/ le b a = true) ->
+  (forall a b c, le a b = true -> le b c = true -> le a c = true) ->
+  (forall a b, le a b = true -> le b a = true -> a = b) ->
+  filter f (isort le kf l) = isort le kf (filter f l).
+Proof.
+  intros Htot Htr Hanti. apply (isort_unique le kf Htot Htr Hanti).
+  - apply StronglySorted_filter. apply isort_sorted; assumption.
+  - intros k. rewrite filter_comm, (isort_stable le kf Htot), filter_comm. reflexivity.
+Qed.
+
+Lemma select_sort_commute t k asc p ty m r1 r2 r3 r4 :
+  sort_members t k asc m = Some r1 -> select_members t p AInf ty r1 = Some r2 ->
+  select_members t p AInf ty m = Some r3 -> sort_members t k asc r3 = Some r4 ->
+  r2 = r4.
+Proof.
+  intros H1 H2 H3 H4.
+  apply sort_members_keys in H1. destruct H1 as [-> _].
+  apply sort_members_keys in H4. destruct H4 as [-> _].
+  apply select_spec in H2. apply select_spec in H3. simpl in H2, H3. subst r2 r3.
+  apply filter_isort_comm; [apply dir_le_total|apply dir_le_trans|apply dir_le_antisym].
+Qed.
+
+(* --- with pairwise different keys the result of sort depends only on WHO is in the set, not on the
+   order they are in (e.g. after any shuffle); with ties it depends on the order only through
+   the order of the tied members (stability) --- *)
+Lemma Permutation_filter {A} (f : A -> bool) a b :
+  Permutation a b -> Permutation (filter f a) (filter f b).
+Proof.
+  intros H. induction H as [|x l l' _ IH|x y l|l l' l'' _ IH1 _ IH2]; simpl.
+  - constructor.
+  - destruct (f x); [constructor|]; exact IH.
+  - destruct (f x), (f y); try reflexivity. apply perm_swap.
+  - eapply Permutation_trans; eassumption.
+Qed.
+
+Lemma filter_key_short {A} (kf : A -> Z) k l :
+  NoDup (map kf l) -> (length (filter (fun a => (kf a =? k)%Z) l) <= 1)%nat.
+Proof.
+  induction l as [|x t IH]; intros H; simpl; [lia|].
+  inversion H as [|? ? Hx Ht]; subst. destruct (kf x =? k) eqn:E; [|apply IH; exact Ht].
+  apply Z.eqb_eq in E. simpl.
+  destruct (filter (fun a => kf a =? k) t) as [|y r] eqn:Ef; [simpl; lia|].
+  exfalso. assert (In y (filter (fun a => kf a =? k) t)) as Hy by (rewrite Ef; left; reflexivity).
+  apply filter_In in Hy. destruct Hy as [Hy1 Hy2]. apply Z.eqb_eq in Hy2.
+  apply Hx. rewrite E, <- Hy2. apply in_map. exact Hy1.
+Qed.
+
+Lemma Permutation_short_eq {A} (a b : list A) :
+  Permutation a b -> (length a <= 1)%nat -> a = b.
+Proof.
+  intros H Hl. destruct a as [|x [|y t]].
+  - apply Permutation_nil in H. congruence.
+  - apply Permutation_length_1_inv in H. congruence.
+  - simpl in Hl. lia.
+Qed.
+
+Lemma isort_order_independent {A} (le : Z -> Z -> bool) (kf : A -> Z) l l' :
+  (forall a b, le a b = true \/ le b a = true) ->
+  (forall a b c, le a b = true -> le b c = true -> le a c = true) ->
+  (forall a b, le a b = true -> le b a = true -> a = b) ->
+  NoDup (map kf l) -> Permutation l l' -> isort le kf l' = isort le kf l.
+Proof.
+  intros Htot Htr Hanti Hnd Hp. apply (isort_unique le kf Htot Htr Hanti).
+  - apply isort_sorted; assumption.
+  - intros k. rewrite (isort_stable le kf Htot). symmetry. apply Permutation_short_eq.
+    + apply Permutation_filter. exact Hp.
+    + apply filter_key_short. exact Hnd.
+Qed.
+
+Lemma sort_order_independent t k asc m m' r r' :
+  NoDup (map (key_or0 t k) m) -> Permutation m m' ->
+  sort_members t k asc m = Some r -> sort_members t k asc m' = Some r' -> r' = r.
+Proof.
+  intros Hnd Hp H1 H2.
+  apply sort_members_keys in H1. destruct H1 as [-> _].
+  apply sort_members_keys in H2. destruct H2 as [-> _].
+  apply isort_order_independent; [apply dir_le_total|apply dir_le_trans|apply dir_le_antisym|exact Hnd|exact Hp].
+Qed.
